@@ -719,8 +719,11 @@ func (fc *fctx) ghostHook(st *State, fr *frame, call *ast.CallExpr, name string,
 		if cl.Kind != "ghost" {
 			continue
 		}
-		if cl.Where == fmt.Sprintf("call[%d] %s", ord, name) || cl.Where == "call "+name {
-			fc.ghostAssign(st, fr, cl, vars)
+		for _, cand := range []string{name, name[strings.LastIndex(name, ".")+1:]} {
+			if cl.Where == fmt.Sprintf("call[%d] %s", ord, cand) || cl.Where == "call "+cand {
+				fc.ghostAssign(st, fr, cl, vars)
+				break
+			}
 		}
 	}
 }
